@@ -21,10 +21,187 @@ def shape(fn):
         for ins in blk['instrs']:
             if ins['op'] == 'Alloc' and ins.get('name'):
                 allocs.append([ins['name'], ins.get('elem')])
-    return {'allocs': allocs,
+    return {'allocs': allocs, 'loops': loop_shapes(fn),
             'params': [[p['name'], p['type']] for p in fn['params']],
             'results': [[r.get('name') or '', r['type']] for r in fn['results']],
             'freevars': [[p['name'], p['type']] for p in fn.get('freevars', [])]}
+
+
+def loop_shapes(fn):
+    """per loop, in ordinal order: the form of its header, the ordinal of its hidden `rangeindex` counter (range over a
+    slice / array / string by index) and its induction variable (a named local whose only stores in the loop are v = v+1)"""
+    from .ssa import CFG
+    try:
+        cfg = CFG(fn)
+    except Exception:
+        return []
+    defs = {}
+    ri_ord = {}
+    for blk in fn['blocks']:
+        for ins in blk['instrs']:
+            if 'id' in ins:
+                defs[ins['id']] = ins
+            if ins['op'] == 'Alloc' and ins.get('name') == 'rangeindex':
+                ri_ord[ins['id']] = len(ri_ord) + 1
+    out = []
+    for h in sorted(cfg.loops, key=lambda h_: cfg.loop_no[h_]):
+        blk = cfg.blocks[h]
+        rec = {'kind': blk.get('comment', ''), 'ri': None, 'iv': None, 'ivid': None, 'riid': None}
+        if blk.get('comment') == 'rangeindex.loop' and blk['instrs'] and blk['instrs'][0]['op'] == 'UnOp':
+            rid = blk['instrs'][0].get('x')
+            rec['ri'] = ri_ord.get(rid)
+            rec['riid'] = rid
+            # the named key variable, if any: allocated per iteration and stored from the counter at the top of the body
+            for b in sorted(cfg.loops[h]):
+                for ins in cfg.blocks[b]['instrs']:
+                    if ins['op'] != 'Store' or not isinstance(ins.get('val'), str) or not isinstance(ins.get('addr'), str):
+                        continue
+                    dv = defs.get(ins['val'])
+                    da = defs.get(ins['addr'])
+                    if dv and dv['op'] == 'UnOp' and dv.get('tok') == '*' and dv.get('x') == rid and da and da['op'] == 'Alloc' \
+                            and da.get('name') not in (None, 'rangeindex') and not rec.get('key'):
+                        rec['key'] = da['name']
+                        rec['keyid'] = ins['addr']
+        else:
+            stores = {}
+            for b in cfg.loops[h]:
+                for ins in cfg.blocks[b]['instrs']:
+                    if ins['op'] == 'Store' and isinstance(ins.get('addr'), str):
+                        stores.setdefault(ins['addr'], []).append(ins)
+            cands = []
+            for addr, lst in stores.items():
+                d = defs.get(addr)
+                if not d or d['op'] != 'Alloc' or not d.get('name') or len(lst) != 1:
+                    continue
+                dv = defs.get(lst[0]['val']) if isinstance(lst[0].get('val'), str) else None
+                if not dv or dv['op'] != 'BinOp' or dv.get('tok') != '+':
+                    continue
+                dx = defs.get(dv['x']) if isinstance(dv.get('x'), str) else None
+                y = dv.get('y')
+                if dx and dx['op'] == 'UnOp' and dx.get('tok') == '*' and dx.get('x') == addr and isinstance(y, dict) and y.get('c') == '1':
+                    cands.append((addr, d['name']))
+            # prefer the one the header compares
+            hdr_loads = {ins.get('x') for ins in blk['instrs'] if ins['op'] == 'UnOp' and ins.get('tok') == '*' and isinstance(ins.get('x'), str)}
+            pick = [c for c in cands if c[0] in hdr_loads] or cands
+            if len(pick) == 1:
+                rec['iv'] = pick[0][1]
+                rec['ivid'] = pick[0][0]
+        out.append(rec)
+    return out
+
+
+def closure_fp(fn):
+    """fingerprint of a function literal: its signature by types, and a histogram of what its body does"""
+    h = {}
+    for blk in fn['blocks']:
+        for ins in blk['instrs']:
+            k = ins['op']
+            if k in ('Call', 'Go', 'Defer'):
+                c = ins.get('call') or {}
+                tgt = str(c.get('callee') or c.get('method') or c.get('mode') or '')
+                k += ':' + ('<lit>' if '$' in tgt else tgt)
+            elif k in ('BinOp', 'UnOp'):
+                k += ':' + str(ins.get('tok', ''))
+            elif k in ('FieldAddr', 'Field'):
+                k += ':' + str(ins.get('field', ''))
+            h[k] = h.get(k, 0) + 1
+    return {'sig': '(%s)(%s)' % (','.join(p['type'] for p in fn['params']), ','.join(r['type'] for r in fn['results'])), 'ops': h}
+
+
+def _similar(a, b):
+    if a['sig'] != b['sig']:
+        return 0.0
+    ha, hb = a['ops'], b['ops']
+    inter = sum(min(v, hb.get(k, 0)) for k, v in ha.items())
+    tot = sum(ha.values()) + sum(hb.values())
+    return 0.5 + (2.0 * inter / tot if tot else 1.0)
+
+
+def _children(funcs, parent):
+    out = []
+    for name, f in funcs.items():
+        if f.get('parent') == parent and name.startswith(parent + '$') and name[len(parent) + 1:].isdigit():
+            out.append((int(name[len(parent) + 1:]), name))
+    return [n for _, n in sorted(out)]
+
+
+def closures_doc(funcs):
+    """{parent: [[ordinal, fingerprint], ...]} for every function that contains function literals"""
+    doc = {}
+    for name, f in funcs.items():
+        par = f.get('parent')
+        if par and name.startswith(par + '$') and name[len(par) + 1:].isdigit():
+            doc.setdefault(par, []).append([int(name[len(par) + 1:]), closure_fp(f)])
+    for par in doc:
+        doc[par].sort(key=lambda x: x[0])
+    return doc
+
+
+def closure_renames(funcs):
+    """{current full name: name it had in the baseline tree} for the function literals of every function whose list of
+    literals changed shape since the baseline (one added before the others, one removed ...).  go/ssa numbers literals
+    `F$1, F$2 ...` in source order and the contracts are keyed by that ordinal, so a literal inserted in front would
+    shift every contract onto the wrong body.  The literals of the current tree are aligned, order-preserving, with the
+    baseline's by signature and body similarity; matched ones keep the baseline ordinal, new ones get ordinals above
+    the baseline's (no contract exists for those: they are inlined at their call sites)."""
+    base = load().get('#closures') or {}
+    ren = {}
+
+    def walk(cur_parent, base_parent, new_parent):
+        cur = _children(funcs, cur_parent)
+        if not cur:
+            return
+        b = base.get(base_parent) if base_parent is not None else None
+        mapping = {}
+        if b:
+            cf = [closure_fp(funcs[n]) for n in cur]
+            same_shape = len(b) == len(cur) and all(b[i][1]['sig'] == cf[i]['sig'] for i in range(len(b))) \
+                and [x[0] for x in b] == [int(n[len(cur_parent) + 1:]) for n in cur]
+            if same_shape:
+                mapping = {i: b[i][0] for i in range(len(cur))}
+            else:
+                n_, m_ = len(b), len(cur)
+                best = [[0.0] * (m_ + 1) for _ in range(n_ + 1)]
+                for i in range(n_ - 1, -1, -1):
+                    for j in range(m_ - 1, -1, -1):
+                        s_ = _similar(b[i][1], cf[j])
+                        v = max(best[i + 1][j], best[i][j + 1])
+                        if s_ > 0 and best[i + 1][j + 1] + s_ > v:
+                            v = best[i + 1][j + 1] + s_
+                        best[i][j] = v
+                i = j = 0
+                while i < n_ and j < m_:
+                    s_ = _similar(b[i][1], cf[j])
+                    if s_ > 0 and abs(best[i][j] - (best[i + 1][j + 1] + s_)) < 1e-9:
+                        mapping[j] = b[i][0]
+                        i += 1
+                        j += 1
+                    elif best[i + 1][j] >= best[i][j + 1]:
+                        i += 1
+                    else:
+                        j += 1
+        nxt = max([x[0] for x in b] if b else [0]) if b else None
+        for j, name in enumerate(cur):
+            if b:
+                if j in mapping:
+                    o = mapping[j]
+                    bp = '%s$%d' % (base_parent, o)
+                else:
+                    nxt += 1
+                    o = nxt
+                    bp = None
+            else:
+                o = int(name[len(cur_parent) + 1:])
+                bp = ('%s$%d' % (base_parent, o)) if base_parent is not None else None
+            new = '%s$%d' % (new_parent, o)
+            if new != name:
+                ren[name] = new
+            walk(name, bp, new)
+
+    for name, f in funcs.items():
+        if not f.get('parent'):
+            walk(name, name, name)
+    return ren
 
 
 _cache = None
@@ -61,6 +238,7 @@ def renames(fn):
 
 def main():
     sys.path.insert(0, VERIF)
+    os.environ['VERIF_NO_ALIGN'] = '1'          # the baseline is taken from the tree as it is
     from govc.engine import Engine
     from govc.properties import PROPERTIES
     eng = Engine(os.environ.get('VERIF_REPO', '/repo'))
@@ -76,6 +254,7 @@ def main():
         for name, fn in eng.prog.funcs.items():
             if eng.prog.short(name) == (full[0], short) or (eng.prog.short(name)[0] == full[0] and eng.prog.short(name)[1].startswith(short + '$')):
                 doc[name] = shape(fn)
+    doc['#closures'] = closures_doc(eng.prog.funcs)
     json.dump(doc, open(PATH, 'w'), indent=0, sort_keys=True)
     print('%s: %d functions' % (PATH, len(doc)))
 
